@@ -276,6 +276,8 @@ def render(doc: dict, fmt: dict | None = None) -> bytes:
                 if fmt.get("row_comments") and ri % 4 == 0:
                     # a comment after a row, on the row's own line; "sep": one that contains the format's separators
                     tail = f"  // beat {ri * 4 // max(len(rows), 1) + 1}" + (" (a, b; c: d #e)" if fmt.get("row_comments") == "sep" else "")
+                    if fmt.get("row_comments") == "glued":
+                        tail = "//" + tail.strip()[2:].strip()  # no blank before the comment: 0100//beat 2
                 pre = "," if (cs == "before_row" and mi > 0 and ri == 0) else ""
                 post = "," if (cs == "after_row" and mi < nm - 1 and ri == len(rows) - 1) else ""
                 L.append(pre + row + post + tail)
